@@ -21,7 +21,7 @@ def decl_specs(tier):
         if len(names) == 1 and w == 'a':
             specs.append({'names': list(names), 'wrapper': w, 'local': True})
             specs.append({'names': list(names), 'wrapper': 'b', 'local': True})
-    for c in ('r2i', 'sd', 'srd', 'ord', 'rsd', 'od', 'rbag', 'i2d', 'd1q', 'b44d', 'r1', 'rs', 'sdn', 'ddn', 'ddx'):
+    for c in ('r2i', 'r2v', 'rbv', 'sd', 'srd', 'ord', 'rsd', 'od', 'rbag', 'i2d', 'd1q', 'b44d', 'r1', 'rs', 'sdn', 'ddn', 'ddx'):
         for d in ('r2i', 'sd', 'rvec', 'd2', 'b44'):
             specs.append({'names': [c, d], 'wrapper': 'a', 'local': True})
             specs.append({'names': [c, d], 'wrapper': 'a', 'opts': {'generate_for_pack': False, 'generate_for_unpack': False}})
